@@ -204,6 +204,7 @@ type inliner struct {
 	curCall   *ast.CallExpr // the call being rewritten (set by helperCall)
 	scanning  bool          // helperCall is only asked whether an expression is a helper call
 	tailCall  bool          // the call being inlined is the operand of a return statement
+	noFlatten bool          // deferred calls of the helper may not be moved to its returns (the caller has an exact form)
 }
 
 // inlineRound returns new contents for the files in which at least one call was inlined.
@@ -869,9 +870,11 @@ func (il *inliner) rewriteStmtDirect(f *ast.File, encl *ast.FuncDecl, st ast.Stm
 		}
 		il.n++
 		end := fmt.Sprintf("ſ%dE", il.n)
+		il.noFlatten = true
 		body, ok := il.body(f, c, h, func(r *ast.ReturnStmt) []ast.Stmt {
 			return []ast.Stmt{&ast.BranchStmt{Tok: token.GOTO, Label: ast.NewIdent(end)}}
 		})
+		il.noFlatten = false
 		if !ok {
 			// a result-less helper that defers: its body runs in a function literal called on the
 			// spot, so its deferred calls still run when *it* returns
@@ -1056,12 +1059,13 @@ func (il *inliner) rewriteStmtDirect(f *ast.File, encl *ast.FuncDecl, st ast.Stm
 }
 
 // hoistFirstCall: a helper call nested in a larger statement — `xs = append(xs, h(a))`,
-// `return h(a), nil`, `f(h(a))` — is bound to a fresh local first when it is the lexically first call
+// `return h(a), nil`, `f(h(a))`, `for … := range g(h(a))`, `switch g(h(a))`, `if g(h(a)) {` — is bound to a fresh local first when it is the lexically first call
 // of the statement (Go evaluates calls left to right, so no other call can observe the move), is not
 // under `&&`/`||` or inside a function literal, and the statement assigns only to plain variables.
 // The binding is then inlined as an assignment.
 func (il *inliner) hoistFirstCall(f *ast.File, encl *ast.FuncDecl, st ast.Stmt, src []byte, tf *token.File) (string, bool) {
 	info := il.pk.TypesInfo
+	var root ast.Node = st
 	switch x := st.(type) {
 	case *ast.ExprStmt, *ast.ReturnStmt:
 	case *ast.AssignStmt:
@@ -1071,6 +1075,19 @@ func (il *inliner) hoistFirstCall(f *ast.File, encl *ast.FuncDecl, st ast.Stmt, 
 			}
 		}
 	case *ast.DeclStmt:
+	case *ast.RangeStmt:
+		// the range expression is evaluated once, before the first iteration
+		root = x.X
+	case *ast.SwitchStmt:
+		if x.Init != nil || x.Tag == nil {
+			return "", false
+		}
+		root = x.Tag
+	case *ast.IfStmt:
+		if x.Init != nil {
+			return "", false
+		}
+		root = x.Cond
 	default:
 		return "", false
 	}
@@ -1106,7 +1123,7 @@ func (il *inliner) hoistFirstCall(f *ast.File, encl *ast.FuncDecl, st ast.Stmt, 
 			return true
 		})
 	}
-	walk(st, false)
+	walk(root, false)
 	if first == nil {
 		return "", false
 	}
@@ -1159,6 +1176,9 @@ func (il *inliner) hoistFirstCall(f *ast.File, encl *ast.FuncDecl, st ast.Stmt, 
 		return "", false
 	}
 	rest := string(src[tf.Offset(st.Pos()):tf.Offset(c.Pos())]) + tmp + string(src[tf.Offset(c.End()):tf.Offset(st.End())])
+	if es, isES := st.(*ast.ExprStmt); isES && unparen(es.X) == ast.Expr(c) {
+		rest = "_ = " + tmp // the call was the whole statement: its result is dropped
+	}
 	return text + "\n" + fmt.Sprintf("//line %s:%d\n", fname, line) + rest, true
 }
 
@@ -1999,21 +2019,24 @@ func (il *inliner) body(f *ast.File, c *ast.CallExpr, h *helper, onReturn func(*
 	}
 	bad := false
 	recursive := false
+	flat := map[*ast.DeferStmt]bool{}
+	if !il.tailCall && !il.noFlatten {
+		flat = il.flattenable(h)
+	}
 	ast.Inspect(h.body, func(n ast.Node) bool {
 		switch x := n.(type) {
 		case *ast.DeferStmt:
-			// a helper that defers can only be inlined where its return is its caller's return
+			// a helper that defers is inlined as it stands where its return is its caller's return
 			// (`return h(a…)`): its deferred calls then run at the very same moment, before the
-			// caller's own — and only without named results, which a deferred call could modify
-			if !il.tailCall || namedDecls != "" {
+			// caller's own — and only without named results, which a deferred call could modify.
+			// Elsewhere its deferred calls are moved to its returns (flattenable, below)
+			if namedDecls != "" || (!il.tailCall && !flat[x]) {
 				bad = true
 			}
 		case *ast.BasicLit:
 			if x.Kind == token.STRING && strings.Contains(x.Value, "\n") {
 				bad = true
 			}
-		case *ast.LabeledStmt:
-			bad = true // labels would be duplicated when the helper is inlined twice into one function
 		case *ast.CallExpr:
 			if id, ok := unparen(x.Fun).(*ast.Ident); ok && id.Name == "recover" {
 				bad = true
@@ -2089,21 +2112,122 @@ func (il *inliner) body(f *ast.File, c *ast.CallExpr, h *helper, onReturn func(*
 	failed := false
 	var rewriteList func(list []ast.Stmt) []ast.Stmt
 	var rewriteStmt func(s ast.Stmt) ast.Stmt
+	// the helper's own labels (those of its function literals are theirs) get fresh names: the helper
+	// may be inlined twice into one function
+	relabel := map[string]string{}
+	{
+		var scan func(n ast.Node) bool
+		scan = func(n ast.Node) bool {
+			switch x := n.(type) {
+			case *ast.FuncLit:
+				return false
+			case *ast.LabeledStmt:
+				il.n++
+				relabel[x.Label.Name] = fmt.Sprintf("ſ%dL", il.n)
+			}
+			return true
+		}
+		ast.Inspect(h.body, scan)
+	}
+	var active []*ast.DeferStmt // the moved deferred calls already registered where the walk stands
+	// locals of the helper that something other than the helper's own statements could reach: their
+	// address is taken, or a function literal mentions them
+	reachable := map[types.Object]bool{}
+	if len(flat) > 0 {
+		var inLit int
+		var scan func(n ast.Node) bool
+		scan = func(n ast.Node) bool {
+			switch x := n.(type) {
+			case *ast.FuncLit:
+				inLit++
+				ast.Inspect(x.Body, scan)
+				inLit--
+				return false
+			case *ast.UnaryExpr:
+				if id, ok := unparen(x.X).(*ast.Ident); ok && x.Op == token.AND {
+					reachable[info.Uses[id]] = true
+				}
+			case *ast.Ident:
+				if inLit > 0 {
+					reachable[info.Uses[x]] = true
+				}
+			}
+			return true
+		}
+		ast.Inspect(h.body, scan)
+	}
+	runDeferred := func() []ast.Stmt {
+		var out []ast.Stmt
+		for i := len(active) - 1; i >= 0; i-- {
+			out = append(out, &ast.ExprStmt{X: active[i].Call})
+		}
+		return out
+	}
 	rewriteStmt = func(s ast.Stmt) ast.Stmt {
 		switch x := s.(type) {
+		case *ast.DeferStmt:
+			if flat[x] {
+				active = append(active, x)
+				return &ast.EmptyStmt{Implicit: false}
+			}
 		case *ast.ReturnStmt:
 			if len(x.Results) == 0 && len(namedIdents) > 0 {
 				x = &ast.ReturnStmt{Results: namedIdents}
+			}
+			var pre []ast.Stmt
+			if len(active) > 0 {
+				// the results are evaluated first, then the deferred calls run, then control leaves
+				if len(x.Results) != sig.Results().Len() {
+					failed = true
+					return s
+				}
+				resExprs := fieldTypeExprs(h.ftype.Results)
+				if len(resExprs) != sig.Results().Len() {
+					failed = true
+					return s
+				}
+				nr := &ast.ReturnStmt{}
+				for i, e := range x.Results {
+					if plainResult(info, e, reachable) {
+						nr.Results = append(nr.Results, e)
+						continue
+					}
+					ts, ok := il.typeAlias(h, fmt.Sprintf("r%d", i), resExprs[i])
+					if !ok {
+						failed = true
+						return s
+					}
+					il.n++
+					tmp := ast.NewIdent(fmt.Sprintf("ſ%dv", il.n))
+					pre = append(pre, &ast.DeclStmt{Decl: &ast.GenDecl{Tok: token.VAR, Specs: []ast.Spec{&ast.ValueSpec{Names: []*ast.Ident{tmp}, Type: ast.NewIdent(ts), Values: []ast.Expr{e}}}}})
+					nr.Results = append(nr.Results, tmp)
+				}
+				pre = append(pre, runDeferred()...)
+				x = nr
 			}
 			rep := onReturn(x)
 			if rep == nil {
 				failed = true
 				return s
 			}
+			if len(pre) > 0 {
+				return &ast.BlockStmt{List: append(pre, rep...)}
+			}
 			if len(rep) == 1 {
 				return rep[0]
 			}
 			return &ast.BlockStmt{List: rep}
+		case *ast.LabeledStmt:
+			if nn, ok := relabel[x.Label.Name]; ok {
+				x.Label = ast.NewIdent(nn)
+			}
+			x.Stmt = rewriteStmt(x.Stmt)
+		case *ast.BranchStmt:
+			if x.Label != nil {
+				if nn, ok := relabel[x.Label.Name]; ok {
+					x.Label = ast.NewIdent(nn)
+				}
+			}
 		case *ast.BlockStmt:
 			x.List = rewriteList(x.List)
 		case *ast.IfStmt:
@@ -2140,11 +2264,191 @@ func (il *inliner) body(f *ast.File, c *ast.CallExpr, h *helper, onReturn func(*
 	if failed {
 		return "", false
 	}
+	if len(active) > 0 && sig.Results().Len() == 0 {
+		// control can fall off the end of a result-less helper: its deferred calls run there too
+		if n := len(cp.List); n == 0 || !isReturnLike(cp.List[n-1]) {
+			cp.List = append(cp.List, runDeferred()...)
+		}
+	}
 	var buf bytes.Buffer
 	if err := printer.Fprint(&buf, token.NewFileSet(), cp); err != nil {
 		return "", false
 	}
 	return namedDecls + buf.String(), true
+}
+
+// flattenable: the defer statements of helper h whose calls may be moved to h's returns. All of them
+// or none: every defer of h is a statement of the body's own list (so every return below it runs
+// it, and none above it does), defers a plain call `x.M(a…)` / `f(a…)` — no function literal —
+// whose operands are constants or variables that nothing assigns or takes the address of after
+// the defer statement, and h has no labels, goto or recover. What is given up is the deferred
+// call's running when the helper panics: no rule of this checker reasons about panicking paths.
+func (il *inliner) flattenable(h *helper) map[*ast.DeferStmt]bool {
+	info := il.pk.TypesInfo
+	out := map[*ast.DeferStmt]bool{}
+	top := map[*ast.DeferStmt]bool{}
+	for _, s := range h.body.List {
+		if d, ok := s.(*ast.DeferStmt); ok {
+			top[d] = true
+		}
+	}
+	if len(top) == 0 {
+		return out
+	}
+	good := true
+	var operands []*ast.Ident
+	// an argument is evaluated when the defer statement runs: only what has the same value later
+	plainArg := func(e ast.Expr) bool {
+		switch x := unparen(e).(type) {
+		case *ast.Ident:
+			operands = append(operands, x)
+			return true
+		case *ast.BasicLit:
+			return true
+		}
+		return false
+	}
+	// the called function: f, pkg.F, x.M, or x.a.b.M where x.a.b is a struct held by value (the
+	// receiver is then its address, which later assignments to its fields do not change)
+	plainFun := func(e ast.Expr) bool {
+		switch x := unparen(e).(type) {
+		case *ast.Ident:
+			operands = append(operands, x)
+			return true
+		case *ast.SelectorExpr:
+			recv := unparen(x.X)
+			if id, ok := recv.(*ast.Ident); ok {
+				operands = append(operands, id)
+				return true
+			}
+			for {
+				sel, ok := recv.(*ast.SelectorExpr)
+				if !ok {
+					break
+				}
+				t := info.TypeOf(sel)
+				if t == nil {
+					return false
+				}
+				if _, isStruct := t.Underlying().(*types.Struct); !isStruct {
+					return false
+				}
+				recv = unparen(sel.X)
+			}
+			id, ok := recv.(*ast.Ident)
+			if ok {
+				operands = append(operands, id)
+			}
+			return ok
+		}
+		return false
+	}
+	ast.Inspect(h.body, func(n ast.Node) bool {
+		switch x := n.(type) {
+		case *ast.FuncLit:
+			return false
+		case *ast.DeferStmt:
+			if !top[x] || !plainFun(x.Call.Fun) || x.Call.Ellipsis.IsValid() {
+				good = false
+				return false
+			}
+			for _, a := range x.Call.Args {
+				if !plainArg(a) {
+					good = false
+				}
+			}
+			return false
+		case *ast.LabeledStmt:
+			good = false
+		case *ast.BranchStmt:
+			if x.Tok == token.GOTO {
+				good = false
+			}
+		}
+		return true
+	})
+	if !good {
+		return out
+	}
+	// nothing writes an operand after its defer statement
+	var first token.Pos
+	for d := range top {
+		if !first.IsValid() || d.Pos() < first {
+			first = d.Pos()
+		}
+	}
+	objs := map[types.Object]bool{}
+	for _, id := range operands {
+		if o := info.Uses[id]; o != nil {
+			if _, isVar := o.(*types.Var); isVar {
+				objs[o] = true
+			}
+		}
+	}
+	ast.Inspect(h.body, func(n ast.Node) bool {
+		if n == nil || n.End() < first {
+			return n != nil
+		}
+		written := func(e ast.Expr) {
+			if id, ok := unparen(e).(*ast.Ident); ok && objs[info.Uses[id]] && id.Pos() > first {
+				good = false
+			}
+		}
+		switch x := n.(type) {
+		case *ast.AssignStmt:
+			for _, l := range x.Lhs {
+				written(l)
+			}
+		case *ast.IncDecStmt:
+			written(x.X)
+		case *ast.UnaryExpr:
+			if x.Op == token.AND {
+				written(x.X)
+			}
+		case *ast.RangeStmt:
+			if x.Key != nil {
+				written(x.Key)
+			}
+			if x.Value != nil {
+				written(x.Value)
+			}
+		}
+		return true
+	})
+	if !good {
+		return out
+	}
+	return top
+}
+
+// plainResult: evaluating e later gives the same value — a constant, nil, or a local variable whose
+// address is never taken and that no function literal mentions (a deferred call that runs in
+// between cannot reach it).
+func plainResult(info *types.Info, e ast.Expr, reachable map[types.Object]bool) bool {
+	switch x := unparen(e).(type) {
+	case *ast.BasicLit:
+		return true
+	case *ast.Ident:
+		switch o := info.Uses[x].(type) {
+		case *types.Const, *types.Nil:
+			return true
+		case *types.Var:
+			return !o.IsField() && o.Parent() != nil && o.Parent() != o.Pkg().Scope() && !reachable[o]
+		}
+	}
+	return false
+}
+
+func isReturnLike(s ast.Stmt) bool {
+	switch x := s.(type) {
+	case *ast.ReturnStmt:
+		return true
+	case *ast.BlockStmt:
+		return len(x.List) > 0 && isReturnLike(x.List[len(x.List)-1])
+	case *ast.BranchStmt:
+		return x.Tok == token.GOTO
+	}
+	return false
 }
 
 // copyBlock deep-copies the statement structure of a block (expressions are shared: they are only printed).
@@ -2203,6 +2507,13 @@ func copyBlock(b *ast.BlockStmt) *ast.BlockStmt {
 			n.Body = cpList(x.Body)
 			return &n
 		case *ast.ReturnStmt:
+			n := *x
+			return &n
+		case *ast.LabeledStmt:
+			n := *x
+			n.Stmt = cpStmt(x.Stmt)
+			return &n
+		case *ast.BranchStmt:
 			n := *x
 			return &n
 		}
